@@ -338,10 +338,11 @@ func (k Keeper) ResetMetaDuration(ctx sdk.Context, meta *types.Metadata) {
 		}
 	}
 
-	if expiredHeight < meta.CreatedAt {
-		// no completed shard left (force-push before the new shard is fulfilled):
-		// do not let the unsigned duration wrap around, the caller extends it
-		expiredHeight = meta.CreatedAt
+	if expiredHeight < uint64(ctx.BlockHeight()) {
+		// no completed shard left (force-push before the new shard is fulfilled, or
+		// rollback after the last shard expired): do not let the unsigned duration
+		// wrap around. The model ends with this block unless the caller extends it.
+		expiredHeight = uint64(ctx.BlockHeight())
 	}
 	newDuration := expiredHeight - meta.CreatedAt
 
